@@ -79,6 +79,16 @@ CHECKS = {
          "address differences, alignment masks or unread fields. Holds for every hash seed, thread interleaving and prior history.",
     note="Trusted: dependencies' determinism (std, indexmap, kurbo, log); sort-key totality at the two sorted-vec sites; confirmed reasons were read by hand and are keyed per function.",
  ),
+ "C08": dict(
+    technique="interval-checked conversion census (T-CAST) plus one dominating-guard rule",
+    design_ref="DESIGN.md §4 C08",
+    text="Claimed for two structural clauses only. (a) 'building succeeds for every conflict-free mapping': in the cmap builder "
+         "every try_from/try_into whose failure becomes a panic, and every explicit panic, is infallible by interval analysis, "
+         "has a confirmed reason, or is a known finding (F9: mappings that one format-4 subtable cannot express); the i16 idDelta "
+         "defect (F3) was repaired. (b) skrifa's symbol-font fallback (retry at codepoint+0xF000) is dominated by the is_symbol "
+         "test. Lookup correctness, segment boundaries, enumeration order and variation sequences are value level and not decided.",
+    note="Trusted: interval domain; glyph ids are 16-bit (asserted at entry, part of the property's quantifier).",
+ ),
  "C12": dict(
     technique="must-reset field analysis over MIR (fields enumerated from the ADT), deep interior-mutability type walk, path-sensitive {Closed,Open} pen automaton with callee summaries, who-may-call",
     design_ref="DESIGN.md §4 C12",
